@@ -142,9 +142,12 @@ static void clear_mirrors(Slot &s) {
     s.batch_timeout = 0;
     s.tb_rate = 0;
     s.tb_burst = 0;
+    s.c09_model.clear();
+    for (auto &ar : W->autoclose_regs) if (ar.slot == s.idx) ar.removed = true;
 }
 
 void sample_states(const char *where) {
+    W->boundary_id++;
     for (auto &s : W->slots) {
         m_mod_t *h = s.handle();
         if (!h) continue;
@@ -155,6 +158,7 @@ void sample_states(const char *where) {
             s.st_gseq = R->gseq;
             sim::tr("state", s.idx, old, st);
             orc_state_edge(s.idx, old, st, where);
+            orc_c08_edge(s.idx, old, st);
             if (st == ST_STOPPED || st == ST_ZOMBIE) {
                 clear_mirrors(s);
                 // messages not yet delivered to this module are discarded
@@ -180,6 +184,12 @@ struct ApiScope {
         st_before = state_of(slot);
         want_snap = on("C01") || on("C07") || on("C09") || on("C14") || on("C15") || on("C18");
         if (want_snap) snap0 = snapshot();
+        if (on("C07") && !strcmp(name, "ctx_dereg")) {
+            bool known;
+            W->c07_looping_at_entry = ctx_is_looping_probe(&known);
+            W->c07_active_before.clear();
+            for (auto &sl : W->slots) if (sl.st == ST_RUNNING || sl.st == ST_PAUSED) W->c07_active_before[sl.idx] = sl.n_cb[CB_STOP];
+        }
         Frame f;
         f.name = name;
         f.slot = slot;
@@ -187,9 +197,9 @@ struct ApiScope {
         W->frames.push_back(f);
     }
     int done(int rc) {
+        sample_states("api-exit");
         Frame f = W->frames.back();
         W->frames.pop_back();
-        sample_states("api-exit");
         ApiRec r;
         r.name = f.name; r.slot = slot; r.rc = rc; r.st_before = st_before; r.st_after = state_of(slot); r.gseq = R->gseq; r.in_cb = in_any_cb();
         std::string snap1 = (want_snap && rc != 0) ? snapshot() : std::string();
@@ -242,6 +252,7 @@ static bool cb_start(m_mod_t *self) {
     run_script(slot, CB_START, n);
     int ret = g_start_ret.back();
     g_start_ret.pop_back();
+    if (!ret) W->slots[slot].start_refused_pending = true;
     cb_exit(slot, CB_START);
     return ret != 0;
 }
@@ -481,6 +492,7 @@ static void erase_src(Slot &s, int type, long k1, long k2 = 0) {
     for (size_t i = 0; i < s.srcs.size(); i++)
         if (s.srcs[i].type == type && s.srcs[i].k1 == k1 && s.srcs[i].k2 == k2) {
             s.srcs[i].removed_gseq = R->gseq;
+            for (auto &ar : W->autoclose_regs) if (ar.slot == s.idx && ar.ud == s.srcs[i].ud) ar.removed = true;
             s.recent_srcs.push_back(s.srcs[i]);
             s.srcs.erase(s.srcs.begin() + i);
             return;
@@ -604,6 +616,7 @@ void exec_op(const Op &op, bool in_cb, int cb_slot) {
         const char *nm = s.name.c_str();
         if (fl & M_MOD_NAME_DUP) { snprintf(tmpname, sizeof tmpname, "%s", s.name.c_str()); nm = tmpname; }
         else nm = NAME_POOL[s.name_idx];
+        s.ctx_gen = W->ctx_registrations;
         W->slots.push_back(s);
         int idx = (int)W->slots.size() - 1;
         W->reg_dereg_since_quiescent++;
@@ -614,17 +627,18 @@ void exec_op(const Op &op, bool in_cb, int cb_slot) {
         Slot &sl = W->slots[idx];
         if (rc == 0 && h) {
             sl.h = h;
+            sl.raw = h;
             W->mod2slot[h] = idx;
             if (W->keep_refs) sl.keep = (m_mod_t *)m_mem_ref(h);
-        } else if (ud) {
-            sk_free((void *)ud);
+        } else if (ud && R->a.is_live(ud)) {
+            sk_free((void *)ud);   // refused before the library took the user data over
         }
         a.done(rc);
         sim::tr("reg", idx, rc, fl);
         return;
     }
     int m = pick_slot(op.arg(0));
-    if (n == "seteval") { if (m >= 0) W->slots[m].eval_flag = op.arg(1) != 0; return; }
+    if (n == "seteval") { if (m >= 0) { W->slots[m].eval_flag = op.arg(1) != 0; W->slots[m].eval_changed_gseq = R->gseq; } return; }
     if (n == "errno") { if (W->errno_ops) errno = (int)op.arg(0); sim::tr("set_errno", op.arg(0)); return; }
     if (n == "ret") { if (!g_start_ret.empty()) g_start_ret.back() = (int)op.arg(0); return; }
     if (n == "env" || n == "env_at") {
@@ -726,6 +740,13 @@ void exec_op(const Op &op, bool in_cb, int cb_slot) {
         ApiScope a("sub", m);
         int rc = a.done(m_mod_ps_subscribe(h, topic, (m_src_flags)fl, ud));
         sim::tr("sub", m, op.arg(1), rc);
+        {
+            regex_t tmp;
+            bool re_valid = regcomp(&tmp, topic, REG_NOSUB) == 0;
+            if (re_valid) regfree(&tmp);
+            unsigned pr = fl & (M_SRC_PRIO_LOW | M_SRC_PRIO_NORM | M_SRC_PRIO_HIGH);
+            c09_register(m, M_SRC_TYPE_PS, (long)(sim::hash_str(topic) & 0x7fffffffffffLL), 0, re_valid && __builtin_popcount(pr) <= 1, rc, true, a.snap0);
+        }
         if (rc == 0) {
             auto it = s.subs.find(topic);
             bool same_flags_update = it != s.subs.end() && it->second.flags == fl;
@@ -747,7 +768,7 @@ void exec_op(const Op &op, bool in_cb, int cb_slot) {
             sm.re_ok = regcomp(&sm.re, topic, REG_NOSUB) == 0;
             s.subs[topic] = sm;
         } else if (fl & M_SRC_AUTOFREE) {
-            sk_free((void *)ud);
+            if (R->a.is_live(ud)) sk_free((void *)ud);
         }
         return;
     }
@@ -756,6 +777,7 @@ void exec_op(const Op &op, bool in_cb, int cb_slot) {
         ApiScope a("unsub", m);
         int rc = a.done(m_mod_ps_unsubscribe(h, topic));
         sim::tr("unsub", m, op.arg(1), rc);
+        c09_deregister(m, M_SRC_TYPE_PS, (long)(sim::hash_str(topic) & 0x7fffffffffffLL), 0, rc, a.snap0);
         if (rc == 0) {
             auto it = s.subs.find(topic);
             if (it != s.subs.end()) { if (it->second.re_ok) regfree(&it->second.re); s.subs.erase(it); }
@@ -763,157 +785,143 @@ void exec_op(const Op &op, bool in_cb, int cb_slot) {
         return;
     }
     // ---------------- sources
-    if (n == "src_fd" || n == "unsrc_fd") {
-        if (W->ufds.empty()) return;
-        int k = (int)(((op.arg(1) % (long)W->ufds.size()) + W->ufds.size()) % W->ufds.size());
-        if (!R->k.is_open(W->ufds[k].first)) make_ufd(k);   // previous descriptor was auto-closed: use a fresh one
-        int fd = W->ufds[k].first;
-        if (n == "src_fd") {
-            unsigned fl = src_flags_from(op.arg(2) & (1 | 2 | 4 | 8));
+    {
+        auto prio_valid = [](unsigned fl, bool is_fd) {
+            unsigned p = fl & (M_SRC_PRIO_LOW | M_SRC_PRIO_NORM | M_SRC_PRIO_HIGH);
+            if (__builtin_popcount(p) > 1) return false;
+            if (is_fd && p && p != M_SRC_PRIO_HIGH) return false;
+            return true;
+        };
+        // generic register: 'call' performs the library call with the user data pointer
+        auto do_register = [&](const char *name, int type, long k1, long k2, bool valid, unsigned fl, std::function<int(const void *)> call, std::function<void(SrcM &)> fill) {
             const void *ud;
             uint64_t id = ud_new((fl & M_SRC_AUTOFREE) != 0, &ud);
-            ApiScope a("src_fd", m);
-            int rc = a.done(m_mod_src_register_fd(h, fd, (m_src_flags)fl, ud));
-            sim::tr("src_fd", m, k, rc);
+            if (type == M_SRC_TYPE_TASK) g_task_params[id] = TaskParam{(uint64_t)std::max(0L, op.arg(2)) * 1000ULL, (int)op.arg(3)};
+            ApiScope a(name, m);
+            int rc = a.done(call(ud));
+            sim::tr(op.name.c_str(), m, k1, rc);
             if (rc == 0) {
-                SrcM x; x.type = M_SRC_TYPE_FD; x.k1 = k; x.flags = fl; x.ud = id; x.oneshot = fl & M_SRC_ONESHOT; x.fd = fd; x.ufd = k; x.reg_gseq = R->gseq;
+                SrcM x;
+                x.type = type; x.k1 = k1; x.k2 = k2; x.flags = fl; x.ud = id; x.reg_gseq = R->gseq;
+                x.oneshot = (fl & M_SRC_ONESHOT) || type == M_SRC_TYPE_TASK || type == M_SRC_TYPE_THRESH;
+                if (fill) fill(x);
                 s.srcs.push_back(x);
-            } else if (fl & M_SRC_AUTOFREE) sk_free((void *)ud);
-        } else {
-            ApiScope a("unsrc_fd", m);
-            int rc = a.done(m_mod_src_deregister_fd(h, fd));
-            sim::tr("unsrc_fd", m, k, rc);
-            if (rc == 0) erase_src(s, M_SRC_TYPE_FD, k);
+            } else if (fl & M_SRC_AUTOFREE) {
+                // who releases the user data of a refused registration is unspecified: the library does when it got as far as creating the source
+                if (R->a.is_live(ud)) sk_free((void *)ud);
+                W->udptr2id.erase(ud);
+            }
+            c09_register(m, type, k1, type == M_SRC_TYPE_TASK ? 0 : k2, valid, rc, false, a.snap0);
+            return rc;
+        };
+        auto do_deregister = [&](const char *name, int type, long k1, long k2, std::function<int()> call) {
+            ApiScope a(name, m);
+            int rc = a.done(call());
+            sim::tr(op.name.c_str(), m, k1, rc);
+            if (rc == 0) erase_src(s, type, k1, k2);
+            c09_deregister(m, type, k1, type == M_SRC_TYPE_TASK ? 0 : k2, rc, a.snap0);
+        };
+        if (n == "src_fd" || n == "unsrc_fd") {
+            if (W->ufds.empty()) return;
+            int k = (int)(((op.arg(1) % (long)W->ufds.size()) + W->ufds.size()) % W->ufds.size());
+            if (!R->k.is_open(W->ufds[k].first) || R->k.fds[W->ufds[k].first].owner != sim::OWN_USER) make_ufd(k);   // previous descriptor was auto-closed: use a fresh one
+            int fd = W->ufds[k].first;
+            if (n == "src_fd") {
+                unsigned fl = src_flags_from(op.arg(2) & (1 | 2 | 4 | 8 | 16 | 32));
+                if ((fl & M_SRC_DUP) && (fl & M_SRC_FD_AUTOCLOSE)) fl &= ~M_SRC_FD_AUTOCLOSE;   // who owns what is unspecified for DUP|AUTOCLOSE
+                do_register("src_fd", M_SRC_TYPE_FD, k, 0, prio_valid(fl, true), fl,
+                            [&](const void *ud) { return m_mod_src_register_fd(h, fd, (m_src_flags)fl, ud); },
+                            [&](SrcM &x) {
+                                x.fd = fd; x.ufd = k;
+                                if ((fl & M_SRC_FD_AUTOCLOSE) && !(fl & M_SRC_DUP)) {
+                                    AutoReg ar; ar.fd = fd; ar.file_id = R->k.get(fd)->id; ar.slot = m; ar.ud = x.ud;
+                                    W->autoclose_regs.push_back(ar);
+                                }
+                            });
+            } else {
+                do_deregister("unsrc_fd", M_SRC_TYPE_FD, k, 0, [&]() { return m_mod_src_deregister_fd(h, fd); });
+            }
+            return;
         }
-        return;
-    }
-    if (n == "src_tmr" || n == "unsrc_tmr") {
-        m_src_tmr_t t;
-        long ki = ((op.arg(1) % TMR_NS_POOL_N) + TMR_NS_POOL_N) % TMR_NS_POOL_N;
-        t.ns = TMR_NS_POOL[ki];
-        t.clock_id = (op.arg(3) & 1) ? CLOCK_REALTIME : CLOCK_MONOTONIC;
-        if (n == "src_tmr") {
-            unsigned fl = src_flags_from(op.arg(2) & (1 | 2 | 16 | 32 | 64));
-            const void *ud;
-            uint64_t id = ud_new((fl & M_SRC_AUTOFREE) != 0, &ud);
-            ApiScope a("src_tmr", m);
-            int rc = a.done(m_mod_src_register_tmr(h, &t, (m_src_flags)fl, ud));
-            sim::tr("src_tmr", m, ki, rc);
-            if (rc == 0) { SrcM x; x.type = M_SRC_TYPE_TMR; x.k1 = ki; x.flags = fl; x.ud = id; x.oneshot = fl & M_SRC_ONESHOT; x.reg_gseq = R->gseq; s.srcs.push_back(x); }
-            else if (fl & M_SRC_AUTOFREE) sk_free((void *)ud);
-        } else {
-            ApiScope a("unsrc_tmr", m);
-            int rc = a.done(m_mod_src_deregister_tmr(h, &t));
-            sim::tr("unsrc_tmr", m, ki, rc);
-            if (rc == 0) erase_src(s, M_SRC_TYPE_TMR, ki);
+        if (n == "src_tmr" || n == "unsrc_tmr") {
+            m_src_tmr_t t;
+            bool valid = op.arg(1) >= 0;
+            long ki = valid ? op.arg(1) % TMR_NS_POOL_N : 0;
+            t.ns = valid ? TMR_NS_POOL[ki] : 0;
+            t.clock_id = (op.arg(3) & 1) ? CLOCK_REALTIME : CLOCK_MONOTONIC;
+            if (n == "src_tmr") {
+                unsigned fl = src_flags_from(op.arg(2) & (1 | 2 | 16 | 32 | 64));
+                do_register("src_tmr", M_SRC_TYPE_TMR, ki, 0, valid && prio_valid(fl, false), fl, [&](const void *ud) { return m_mod_src_register_tmr(h, &t, (m_src_flags)fl, ud); }, nullptr);
+            } else if (valid) {
+                do_deregister("unsrc_tmr", M_SRC_TYPE_TMR, ki, 0, [&]() { return m_mod_src_deregister_tmr(h, &t); });
+            }
+            return;
         }
-        return;
-    }
-    if (n == "src_sgn" || n == "unsrc_sgn") {
-        m_src_sgn_t sg;
-        sg.signo = (unsigned)(1 + ((op.arg(1) % 30) + 30) % 30);
-        if (n == "src_sgn") {
-            unsigned fl = src_flags_from(op.arg(2) & (1 | 2));
-            const void *ud;
-            uint64_t id = ud_new((fl & M_SRC_AUTOFREE) != 0, &ud);
-            ApiScope a("src_sgn", m);
-            int rc = a.done(m_mod_src_register_sgn(h, &sg, (m_src_flags)fl, ud));
-            sim::tr("src_sgn", m, sg.signo, rc);
-            if (rc == 0) { SrcM x; x.type = M_SRC_TYPE_SGN; x.k1 = sg.signo; x.flags = fl; x.ud = id; x.oneshot = fl & M_SRC_ONESHOT; x.reg_gseq = R->gseq; s.srcs.push_back(x); }
-            else if (fl & M_SRC_AUTOFREE) sk_free((void *)ud);
-        } else {
-            ApiScope a("unsrc_sgn", m);
-            int rc = a.done(m_mod_src_deregister_sgn(h, &sg));
-            sim::tr("unsrc_sgn", m, sg.signo, rc);
-            if (rc == 0) erase_src(s, M_SRC_TYPE_SGN, sg.signo);
+        if (n == "src_sgn" || n == "unsrc_sgn") {
+            m_src_sgn_t sg;
+            bool valid = op.arg(1) >= 0;
+            sg.signo = valid ? (unsigned)(1 + (op.arg(1) % 30)) : 0;
+            if (n == "src_sgn") {
+                unsigned fl = src_flags_from(op.arg(2) & (1 | 2 | 16 | 32));
+                do_register("src_sgn", M_SRC_TYPE_SGN, sg.signo, 0, valid && prio_valid(fl, false), fl, [&](const void *ud) { return m_mod_src_register_sgn(h, &sg, (m_src_flags)fl, ud); }, nullptr);
+            } else if (valid) {
+                do_deregister("unsrc_sgn", M_SRC_TYPE_SGN, sg.signo, 0, [&]() { return m_mod_src_deregister_sgn(h, &sg); });
+            }
+            return;
         }
-        return;
-    }
-    if (n == "src_path" || n == "unsrc_path") {
-        long pi = ((op.arg(1) % PATH_POOL_N) + PATH_POOL_N) % PATH_POOL_N;
-        m_src_path_t pt;
-        pt.path = PATH_POOL[pi];
-        pt.events = 0x2 | 0x100;
-        if (n == "src_path") {
-            unsigned fl = src_flags_from(op.arg(2) & (1 | 2 | 4));
-            const void *ud;
-            uint64_t id = ud_new((fl & M_SRC_AUTOFREE) != 0, &ud);
-            ApiScope a("src_path", m);
-            int rc = a.done(m_mod_src_register_path(h, &pt, (m_src_flags)fl, ud));
-            sim::tr("src_path", m, pi, rc);
-            if (rc == 0) { SrcM x; x.type = M_SRC_TYPE_PATH; x.k1 = pi; x.flags = fl; x.ud = id; x.oneshot = fl & M_SRC_ONESHOT; x.reg_gseq = R->gseq; s.srcs.push_back(x); }
-            else if (fl & M_SRC_AUTOFREE) sk_free((void *)ud);
-        } else {
-            ApiScope a("unsrc_path", m);
-            int rc = a.done(m_mod_src_deregister_path(h, &pt));
-            sim::tr("unsrc_path", m, pi, rc);
-            if (rc == 0) erase_src(s, M_SRC_TYPE_PATH, pi);
+        if (n == "src_path" || n == "unsrc_path") {
+            bool valid = op.arg(1) >= 0;
+            long pi = valid ? op.arg(1) % PATH_POOL_N : 0;
+            m_src_path_t pt;
+            pt.path = valid ? PATH_POOL[pi] : "";
+            pt.events = 0x2 | 0x100;
+            if (n == "src_path") {
+                unsigned fl = src_flags_from(op.arg(2) & (1 | 2 | 4 | 16 | 32));
+                do_register("src_path", M_SRC_TYPE_PATH, pi, 0, valid && prio_valid(fl, false), fl, [&](const void *ud) { return m_mod_src_register_path(h, &pt, (m_src_flags)fl, ud); }, nullptr);
+            } else if (valid) {
+                do_deregister("unsrc_path", M_SRC_TYPE_PATH, pi, 0, [&]() { return m_mod_src_deregister_path(h, &pt); });
+            }
+            return;
         }
-        return;
-    }
-    if (n == "src_pid" || n == "unsrc_pid") {
-        m_src_pid_t pd;
-        pd.pid = (pid_t)(100 + ((op.arg(1) % 8) + 8) % 8);
-        pd.events = 0;
-        if (n == "src_pid") {
-            unsigned fl = src_flags_from(op.arg(2) & (1 | 2));
-            const void *ud;
-            uint64_t id = ud_new((fl & M_SRC_AUTOFREE) != 0, &ud);
-            ApiScope a("src_pid", m);
-            int rc = a.done(m_mod_src_register_pid(h, &pd, (m_src_flags)fl, ud));
-            sim::tr("src_pid", m, pd.pid, rc);
-            if (rc == 0) { SrcM x; x.type = M_SRC_TYPE_PID; x.k1 = pd.pid; x.flags = fl; x.ud = id; x.oneshot = fl & M_SRC_ONESHOT; x.reg_gseq = R->gseq; s.srcs.push_back(x); }
-            else if (fl & M_SRC_AUTOFREE) sk_free((void *)ud);
-        } else {
-            ApiScope a("unsrc_pid", m);
-            int rc = a.done(m_mod_src_deregister_pid(h, &pd));
-            sim::tr("unsrc_pid", m, pd.pid, rc);
-            if (rc == 0) erase_src(s, M_SRC_TYPE_PID, pd.pid);
+        if (n == "src_pid" || n == "unsrc_pid") {
+            m_src_pid_t pd;
+            bool valid = op.arg(1) >= 0;
+            pd.pid = valid ? (pid_t)(100 + op.arg(1) % 8) : 0;
+            pd.events = 0;
+            if (n == "src_pid") {
+                unsigned fl = src_flags_from(op.arg(2) & (1 | 2 | 16 | 32));
+                do_register("src_pid", M_SRC_TYPE_PID, pd.pid, 0, valid && prio_valid(fl, false), fl, [&](const void *ud) { return m_mod_src_register_pid(h, &pd, (m_src_flags)fl, ud); }, nullptr);
+            } else if (valid) {
+                do_deregister("unsrc_pid", M_SRC_TYPE_PID, pd.pid, 0, [&]() { return m_mod_src_deregister_pid(h, &pd); });
+            }
+            return;
         }
-        return;
-    }
-    if (n == "src_task" || n == "unsrc_task") {
-        m_src_task_t tk;
-        tk.tid = (int)(((op.arg(1) % 6) + 6) % 6);
-        tk.fn = task_fn;
-        if (n == "src_task") {
-            unsigned fl = src_flags_from(op.arg(4) & 2);
-            const void *ud;
-            uint64_t id = ud_new((fl & M_SRC_AUTOFREE) != 0, &ud);
-            g_task_params[id] = TaskParam{(uint64_t)std::max(0L, op.arg(2)) * 1000ULL, (int)op.arg(3)};
-            ApiScope a("src_task", m);
-            int rc = a.done(m_mod_src_register_task(h, &tk, (m_src_flags)fl, ud));
-            sim::tr("src_task", m, tk.tid, rc);
-            if (rc == 0) { SrcM x; x.type = M_SRC_TYPE_TASK; x.k1 = tk.tid; x.k2 = op.arg(3); x.flags = fl; x.ud = id; x.oneshot = true; x.reg_gseq = R->gseq; s.srcs.push_back(x); }
-            else if (fl & M_SRC_AUTOFREE) sk_free((void *)ud);
-        } else {
-            ApiScope a("unsrc_task", m);
-            int rc = a.done(m_mod_src_deregister_task(h, &tk));
-            sim::tr("unsrc_task", m, tk.tid, rc);
+        if (n == "src_task" || n == "unsrc_task") {
+            m_src_task_t tk;
+            tk.tid = (int)(((op.arg(1) % 6) + 6) % 6);
+            bool valid = op.arg(5, 0) == 0;
+            tk.fn = valid ? task_fn : nullptr;
+            if (n == "src_task") {
+                unsigned fl = src_flags_from(op.arg(4) & 2);
+                do_register("src_task", M_SRC_TYPE_TASK, tk.tid, op.arg(3), valid, fl, [&](const void *ud) { return m_mod_src_register_task(h, &tk, (m_src_flags)fl, ud); }, nullptr);
+            } else {
+                do_deregister("unsrc_task", M_SRC_TYPE_TASK, tk.tid, 0, [&]() { return m_mod_src_deregister_task(h, &tk); });
+            }
+            return;
         }
-        return;
-    }
-    if (n == "src_thresh" || n == "unsrc_thresh") {
-        m_src_thresh_t th;
-        th.inactive_ms = (uint64_t)std::max(0L, op.arg(1));
-        th.activity_freq = (double)std::max(0L, op.arg(2)) / 4.0;
-        if (th.inactive_ms == 0 && th.activity_freq == 0) th.inactive_ms = 5;
-        if (n == "src_thresh") {
-            unsigned fl = src_flags_from(op.arg(3) & 2);
-            const void *ud;
-            uint64_t id = ud_new((fl & M_SRC_AUTOFREE) != 0, &ud);
-            ApiScope a("src_thresh", m);
-            int rc = a.done(m_mod_src_register_thresh(h, &th, (m_src_flags)fl, ud));
-            sim::tr("src_thresh", m, (long)th.inactive_ms, rc);
-            if (rc == 0) { SrcM x; x.type = M_SRC_TYPE_THRESH; x.k1 = (long)th.inactive_ms; x.k2 = std::max(0L, op.arg(2)); x.flags = fl; x.ud = id; x.oneshot = true; x.reg_gseq = R->gseq; s.srcs.push_back(x); }
-            else if (fl & M_SRC_AUTOFREE) sk_free((void *)ud);
-        } else {
-            ApiScope a("unsrc_thresh", m);
-            int rc = a.done(m_mod_src_deregister_thresh(h, &th));
-            sim::tr("unsrc_thresh", m, (long)th.inactive_ms, rc);
-            if (rc == 0) erase_src(s, M_SRC_TYPE_THRESH, (long)th.inactive_ms, std::max(0L, op.arg(2)));
+        if (n == "src_thresh" || n == "unsrc_thresh") {
+            m_src_thresh_t th;
+            th.inactive_ms = (uint64_t)std::max(0L, op.arg(1));
+            th.activity_freq = (double)std::max(0L, op.arg(2)) / 4.0;
+            bool valid = th.inactive_ms != 0 || th.activity_freq != 0;
+            if (n == "src_thresh") {
+                unsigned fl = src_flags_from(op.arg(3) & 2);
+                do_register("src_thresh", M_SRC_TYPE_THRESH, (long)th.inactive_ms, std::max(0L, op.arg(2)), valid, fl, [&](const void *ud) { return m_mod_src_register_thresh(h, &th, (m_src_flags)fl, ud); }, nullptr);
+            } else if (valid) {
+                do_deregister("unsrc_thresh", M_SRC_TYPE_THRESH, (long)th.inactive_ms, std::max(0L, op.arg(2)), [&]() { return m_mod_src_deregister_thresh(h, &th); });
+            }
+            return;
         }
-        return;
     }
     // ---------------- events: stash / become / batching / token bucket
     if (n == "stash") {
@@ -1080,6 +1088,7 @@ static void do_send(int kind, int from, int to, long topic_idx, bool autofree, i
             sd.eligible.clear();
             if (sd.autofree && R->a.is_live(sd.payload)) { W->payload2send.erase(sd.payload); sk_free((void *)sd.payload); sd.payload = nullptr; }
         } else if (kind == 3) {
+            if (W->slots[to].pills_pending == 0) W->slots[to].pending_pill_first_gseq = sd.gseq;
             W->slots[to].pills_pending++;
             W->slots[to].pending_pill_gseq = sd.gseq;
         }
@@ -1115,10 +1124,10 @@ void teardown() {
     }
     // 2. modules first or context first
     if (W->teardown_style == 0) {
-        for (auto &s : W->slots) {
-            if (!s.h) continue;
-            if (state_of(s.idx) == ST_ZOMBIE) continue;
-            Op d; d.where = "D"; d.name = "dereg"; d.a = {s.idx};
+        for (size_t i = 0; i < W->slots.size(); i++) {   // by index: callbacks may register further modules
+            if (!W->slots[i].h) continue;
+            if (state_of((int)i) == ST_ZOMBIE) continue;
+            Op d; d.where = "D"; d.name = "dereg"; d.a = {(long)i};
             exec_op(d, false, -1);
         }
     }
@@ -1131,7 +1140,7 @@ void teardown() {
     // 3. drop every reference the harness still holds
     for (auto &re : W->retained) if (!re.released) { re.released = true; m_mem_unref((void *)re.raw); }
     for (auto &s : W->slots) {
-        while (s.user_refs > 0) { s.user_refs--; m_mem_unref(s.handle()); }
+        while (s.user_refs > 0) { m_mod_t *hh = s.handle(); s.user_refs--; m_mem_unref(hh); }
         if (s.h) { m_mem_unref(s.h); s.h = nullptr; }
         if (s.keep) { m_mem_unref(s.keep); s.keep = nullptr; }
     }
